@@ -45,8 +45,8 @@ CLAIMED = {
    note=TRUST + "Parsers (x509, ssh, asn1) are trusted to return well-shaped values (type invariant of asn1.BitString; NIST curve sizes). The cloud-role path and panics inside dependency parsers are not covered.",
    design="7 (C10)"),
  "C11": dict(
-   text="Deductive proof (mathematical-int mode with no-overflow obligations) that the RFC 3779 decoder never panics, never accepts a prefix longer than 32 bits, and that a refresh request keeps the authenticated identity.",
-   note=TRUST + "Round-trip equality of netblocks and the iff-membership clause are not yet under contract (declared in DESIGN.md).",
+   text="Deductive proof (mathematical-int mode with no-overflow obligations) of the RFC 3779 codec: the decoder never panics, accepts exactly prefix lengths 0..32, yields octet j of the encoded block while 8*j < length and 0 beyond, and a /length mask; the encoder emits the mask's length and the first ceil(length/8) IPv4 octets (loop invariants over both copy loops); a lemma function over the two contracts proves that a canonical IPv4 netblock is read back with the same four octets and prefix length. The IP-certificate authenticator hands the TCP peer address (r.RemoteAddr) to the netblock test, and a refresh request keeps the authenticated identity.",
+   note=TRUST + "The verdict of net.IPNet.Contains inside VerifyIPRestrictedX509CertIP (the iff-membership clause) is an assumed contract of that function (listed); asn1.Marshal/Unmarshal and x509 extension transport are trusted to round-trip. Minting-side separation of requestor and target netblocks is not under contract yet.",
    design="7 (C11)"),
  "C13": dict(
    text="String-theory proof that CanRedirectToURL accepts only https, no query, no '..', a host equal to or a subdomain of a configured domain (exists-quantified over the list), a matching pattern when patterns are configured, nothing when unconfigured; the authorization handler redirects only to a prefix approved by that function (ghost state); same host rule for CORS origins.",
